@@ -88,93 +88,7 @@ func c01(c *Ctx) {
 	r.Decides("clearForResetNoLock resets every incrementally accumulated figure; the plugin's pod handlers hand every event to each affected tree's manager that exists")
 	r.Declines("that the leaf-to-root deltas add up to the recomputed totals (clamping at zero, min-raise, hand-over arithmetic); read-side races on QuotaInfo")
 
-	// ---- pairing
-	r.Rule("PATH(pairing): for matching (quota, pod) arguments in OnPodAdd/OnPodUpdate/OnPodDelete/MigratePod/ReservePod/UnreservePod: cacheAdd => reqAdd on every path to the exit; cacheDel <= dominated by reqDel; no reqDel/usedDel reachable after cacheDel; assign(true) => usedAdd on every path; assign(false) <= dominated by usedDel; assign(v) => usedAdd under v==true")
-	nPair := 0
-	for _, name := range []string{"OnPodAdd", "OnPodUpdate", "OnPodDelete", "MigratePod", "ReservePod", "UnreservePod"} {
-		fn := c.Fn(quotaCorePkg, "GroupQuotaManager", name)
-		if fn == nil {
-			continue
-		}
-		ops := podOps(fn)
-		find := func(kind string, q, p ssa.Value) []podOp {
-			var out []podOp
-			for _, o := range ops {
-				if o.kind == kind && sameVal(o.q, q) && sameVal(o.p, p) {
-					out = append(out, o)
-				}
-			}
-			return out
-		}
-		followed := func(o podOp, kind string, facts an.Facts) bool {
-			targets := map[ssa.Instruction]bool{}
-			for _, t := range find(kind, o.q, o.p) {
-				targets[t.call] = true
-			}
-			if len(targets) == 0 {
-				return false
-			}
-			reach := an.Explore(fn, an.After(o.call), facts, func(in ssa.Instruction) bool { return targets[in] })
-			return len(reach.Returns()) == 0
-		}
-		dominated := func(o podOp, kind string) bool {
-			for _, t := range find(kind, o.q, o.p) {
-				tb, ob := t.call.Block(), o.call.Block()
-				if (tb == ob && instrIndex(t.call) < instrIndex(o.call)) || (tb != ob && tb.Dominates(ob)) {
-					return true
-				}
-			}
-			return false
-		}
-		notAfter := func(o podOp, kinds ...string) string {
-			reach := an.Explore(fn, an.After(o.call), nil, nil)
-			for _, k := range kinds {
-				for _, t := range find(k, o.q, o.p) {
-					if reach.Reached(t.call) {
-						return k + " at " + c.InstrPos(t.call)
-					}
-				}
-			}
-			return ""
-		}
-		ord := map[string]int{}
-		for _, o := range ops {
-			ord[o.kind]++
-			key := sprintf("%s/%s#%d", fkey(fn), o.kind, ord[o.kind])
-			switch o.kind {
-			case "cacheAdd":
-				nPair++
-				r.Check(followed(o, "reqAdd", nil), "PATH", key+"=>reqAdd", c.InstrPos(o.call), "pod added to the cache always gets its request added",
-					"the pod is added to the quota's cache but a return is reachable without adding its request: the request is lost")
-			case "cacheDel":
-				nPair++
-				r.Check(dominated(o, "reqDel"), "PATH", key+"<=reqDel", c.InstrPos(o.call), "request removed before the pod leaves the cache",
-					"the pod is removed from the quota's cache without its request having been removed on every path: a ghost request stays behind")
-				bad := notAfter(o, "reqDel", "usedDel")
-				r.Check(bad == "", "PATH", key+"/nothing-removed-after", c.InstrPos(o.call), "no request/used removal after the pod left the cache",
-					"after the pod left the cache a removal is still performed ("+bad+"): updatePodUsedNoLock/updatePodRequestNoLock look the pod up in the cache, so the removal silently does nothing")
-			case "assignT":
-				nPair++
-				r.Check(followed(o, "usedAdd", nil), "PATH", key+"=>usedAdd", c.InstrPos(o.call), "pod marked assigned always gets its used added",
-					"the pod is marked assigned but a return is reachable without adding its used amount")
-			case "assignF":
-				nPair++
-				r.Check(dominated(o, "usedDel"), "PATH", key+"<=usedDel", c.InstrPos(o.call), "used removed before the pod is un-assigned",
-					"the pod is un-assigned without its used amount having been removed on every path")
-			case "assignV":
-				nPair++
-				r.Check(followed(o, "usedAdd", an.Facts{o.flag: an.True}), "PATH", key+"=>usedAdd|flag", c.InstrPos(o.call), "when the flag is true the used amount is added",
-					"the pod may be marked assigned (flag true) while a return is reachable without adding its used amount")
-			case "usedAdd":
-				// must be justified by an assignment in this function (or a dominating assigned check for updates)
-				nPair++
-				ok := dominated(o, "assignT") || dominated(o, "assignV")
-				r.Check(ok, "PATH", key+"<=assign", c.InstrPos(o.call), "used is added only for a pod marked assigned in this step",
-					"used is added for a pod that was not marked assigned before on every path")
-			}
-		}
-	}
-	r.Floor("PATH", "pairing obligations in pod-event entry points", nPair, 18)
+	quotaPairing(c)
 
 	// ---- bracket
 	r.Rule("PATH+FLOW(bracket): every quotav1.Subtract(new, old) whose operands are two getLimitRequestNoLock() results of one quota has the old call before and the new call after a mutation of that quota (setMax/addRequest/Request store); for Guaranteed: old is loaded before and new is the value stored")
@@ -363,7 +277,6 @@ func keysOf2(m map[string]string) []string {
 	return out
 }
 
-
 // c01plugin: the plugin's informer handlers always hand the event to the manager(s) that exist.
 func c01plugin(c *Ctx) {
 	r := c.R
@@ -531,4 +444,113 @@ func c01plugin(c *Ctx) {
 		})
 		r.Check(len(f) >= 2 && len(reach.Returns()) == 0, "PATH", fkey(hf)+"/reaches-manager", c.Pos(hf.Pos()), "the manager's "+h.want+" is reached", sprintf("Plugin.%s can return for a pod with a quota name and an existing manager without calling the manager's %s (%d conditions recognised)", h.fn, h.want, len(f)))
 	}
+}
+
+// quotaPairing: request/used/cache/assigned steps of the pod-event entry points come in matching pairs (shared by C01 and C03).
+func quotaPairing(c *Ctx) {
+	r := c.R
+	// ---- pairing
+	r.Rule("PATH(pairing): for matching (quota, pod) arguments in OnPodAdd/OnPodUpdate/OnPodDelete/MigratePod/ReservePod/UnreservePod: cacheAdd => reqAdd on every path to the exit; cacheDel <= dominated by reqDel; no reqDel/usedDel reachable after cacheDel; assign(true) => usedAdd on every path; assign(false) <= dominated by usedDel; assign(v) => usedAdd under v==true")
+	nPair := 0
+	for _, name := range []string{"OnPodAdd", "OnPodUpdate", "OnPodDelete", "MigratePod", "ReservePod", "UnreservePod"} {
+		fn := c.Fn(quotaCorePkg, "GroupQuotaManager", name)
+		if fn == nil {
+			continue
+		}
+		ops := podOps(fn)
+		find := func(kind string, q, p ssa.Value) []podOp {
+			var out []podOp
+			for _, o := range ops {
+				if o.kind == kind && sameVal(o.q, q) && sameVal(o.p, p) {
+					out = append(out, o)
+				}
+			}
+			return out
+		}
+		followed := func(o podOp, kind string, facts an.Facts) bool {
+			targets := map[ssa.Instruction]bool{}
+			for _, t := range find(kind, o.q, o.p) {
+				targets[t.call] = true
+			}
+			if len(targets) == 0 {
+				return false
+			}
+			reach := an.Explore(fn, an.After(o.call), facts, func(in ssa.Instruction) bool { return targets[in] })
+			return len(reach.Returns()) == 0
+		}
+		dominated := func(o podOp, kind string) bool {
+			for _, t := range find(kind, o.q, o.p) {
+				tb, ob := t.call.Block(), o.call.Block()
+				if (tb == ob && instrIndex(t.call) < instrIndex(o.call)) || (tb != ob && tb.Dominates(ob)) {
+					return true
+				}
+			}
+			return false
+		}
+		notAfter := func(o podOp, kinds ...string) string {
+			reach := an.Explore(fn, an.After(o.call), nil, nil)
+			for _, k := range kinds {
+				for _, t := range find(k, o.q, o.p) {
+					if reach.Reached(t.call) {
+						return k + " at " + c.InstrPos(t.call)
+					}
+				}
+			}
+			return ""
+		}
+		ord := map[string]int{}
+		for _, o := range ops {
+			ord[o.kind]++
+			key := sprintf("%s/%s#%d", fkey(fn), o.kind, ord[o.kind])
+			switch o.kind {
+			case "cacheAdd":
+				nPair++
+				r.Check(followed(o, "reqAdd", nil), "PATH", key+"=>reqAdd", c.InstrPos(o.call), "pod added to the cache always gets its request added",
+					"the pod is added to the quota's cache but a return is reachable without adding its request: the request is lost")
+			case "cacheDel":
+				nPair++
+				r.Check(dominated(o, "reqDel"), "PATH", key+"<=reqDel", c.InstrPos(o.call), "request removed before the pod leaves the cache",
+					"the pod is removed from the quota's cache without its request having been removed on every path: a ghost request stays behind")
+				// an assigned pod's used amount is released before it leaves the cache
+				af := an.Facts{}
+				for _, cl := range an.Calls(fn, false) {
+					sn := an.ShortCallee(cl.Common())
+					a := cl.Common().Args
+					if (sn == "CheckPodIsAssigned" && sameVal(a[1], o.p)) || (sn == "getPodIsAssignedNoLock" && sameVal(a[2], o.p)) {
+						af[cl.Value()] = an.True
+					}
+				}
+				uTargets := map[ssa.Instruction]bool{}
+				for _, t := range find("usedDel", o.q, o.p) {
+					uTargets[t.call] = true
+				}
+				reachA := an.Explore(fn, nil, af, func(in ssa.Instruction) bool { return uTargets[in] })
+				r.Check(len(af) > 0 && !reachA.Reached(o.call), "PATH", key+"/assigned=>usedDel", c.InstrPos(o.call), "an assigned pod's used amount is released before it leaves the cache",
+					sprintf("the pod can leave the quota's cache while marked assigned without its used amount having been released (assigned tests recognised: %d): the used amount stays in the quota for ever and later pods are rejected against it", len(af)))
+				bad := notAfter(o, "reqDel", "usedDel")
+				r.Check(bad == "", "PATH", key+"/nothing-removed-after", c.InstrPos(o.call), "no request/used removal after the pod left the cache",
+					"after the pod left the cache a removal is still performed ("+bad+"): updatePodUsedNoLock/updatePodRequestNoLock look the pod up in the cache, so the removal silently does nothing")
+			case "assignT":
+				nPair++
+				r.Check(followed(o, "usedAdd", nil), "PATH", key+"=>usedAdd", c.InstrPos(o.call), "pod marked assigned always gets its used added",
+					"the pod is marked assigned but a return is reachable without adding its used amount")
+			case "assignF":
+				nPair++
+				r.Check(dominated(o, "usedDel"), "PATH", key+"<=usedDel", c.InstrPos(o.call), "used removed before the pod is un-assigned",
+					"the pod is un-assigned without its used amount having been removed on every path")
+			case "assignV":
+				nPair++
+				r.Check(followed(o, "usedAdd", an.Facts{o.flag: an.True}), "PATH", key+"=>usedAdd|flag", c.InstrPos(o.call), "when the flag is true the used amount is added",
+					"the pod may be marked assigned (flag true) while a return is reachable without adding its used amount")
+			case "usedAdd":
+				// must be justified by an assignment in this function (or a dominating assigned check for updates)
+				nPair++
+				ok := dominated(o, "assignT") || dominated(o, "assignV")
+				r.Check(ok, "PATH", key+"<=assign", c.InstrPos(o.call), "used is added only for a pod marked assigned in this step",
+					"used is added for a pod that was not marked assigned before on every path")
+			}
+		}
+	}
+	r.Floor("PATH", "pairing obligations in pod-event entry points", nPair, 18)
+
 }
